@@ -113,6 +113,9 @@ func (d *Dialer) Dial(urlStr string, requestHeader fakehttp.Header) (*Conn, *fak
 	}
 	port := u.Port()
 	simrt.Yield("ws.Dial " + port)
+	if l := latency(); l > 0 {
+		sleep(2 * l) // TCP + TLS round trips take time: concurrent dials of two hubs overlap
+	}
 	cleaf, craw := leafOf(d.TLSClientConfig)
 	from := ""
 	if cleaf != nil {
